@@ -10,12 +10,19 @@ import TypstyleModel.Proofs.CarriesTable
 what the tree prescribes** — code tokens, comments, prose, literals and verbatim text — with no
 per-case certificate: by induction over the fuel of the knot, using the per-construct theorems.
 
-Covered fragment (`inFrag`): identifiers and literal leaves; unary expressions; `let` bindings and
-destructuring assignments; show rules; `context`, `if`/`else`, `while`, `return`, `include`
-expressions; named, keyed and spread elements; and any expression node marked `@typstyle off`
-(emitted verbatim).  Comments, keywords, `#` and white space may occur anywhere among the children.
-What is not covered yet is listed in DESIGN.md; for those constructs the per-case certificates remain
-the deciding check. -/
+Two decidable fragments, defined by mutual recursion: `inFrag` for contexts that are not in math mode
+and `inFragM` for math mode (`inFragMS`: a sequence of children in math mode; the flag says that the
+previous sibling is `#`, so the child is converted in code mode and must lie in `inFrag`).
+`inFrag` covers: identifier, literal and prose leaves; unary and binary expressions (operator chains,
+`not in`); field access and method chains; calls and argument lists, `table`/`grid` included; `set`,
+`show`, `let`, destructuring, closures and parameter lists; `context`, `if`, `while`, `for`, `return`,
+`break`, `continue`, `include`, `import` (items in order, or not sorted); named, keyed, spread; arrays,
+dictionaries, parentheses (nested too), code blocks (empty or marked bodies too); markup, content blocks,
+strong/emphasis, headings, list/enum/term items, raw, references, equations; any expression node marked
+`@typstyle off`; comments, keywords, `#` and white space anywhere.  `inFragM` covers: math leaves,
+attachments, roots, fractions, primes, delimited groups, nested and empty bodies, field access, calls with
+one- or two-dimensional arguments (rows may hold `#` code).  What is not covered is listed in DESIGN.md
+§0.2; for those trees the per-case certificates remain the deciding check. -/
 namespace Typstyle
 open Twin
 
